@@ -33,6 +33,9 @@ def main():
                 from vf.simk import world
                 world.DEFAULT_PROCFS = case["_mount"]
                 ctx.alt = True
+                from vf import harness
+                harness.ALT_SETTINGS["debug"] = True
+                os.dup2(os.open(os.devnull, os.O_WRONLY), 2)
                 case = case["case"]
             res = mod.replay(ctx, case)
         else:
@@ -42,13 +45,32 @@ def main():
                 # the same check once more with procfs mounted somewhere else (psutil.PROCFS_PATH, a documented setting):
                 # nothing answers under /proc then, so a path that bypasses get_procfs_path() fails
                 from vf.simk import world
+                from vf import harness
+                import tempfile
                 ctx.close()
                 world.DEFAULT_PROCFS, ctx.alt = ALT, True
+                harness.ALT_SETTINGS["debug"] = True
+                # psutil's debug output goes to stderr: keep it out of the way, show its tail only if the pass dies
+                sys.stderr.flush()
+                saved_fd, tmpf = os.dup(2), tempfile.TemporaryFile()
+                os.dup2(tmpf.fileno(), 2)
                 try:
                     res2 = mod.run(ctx)
+                except BaseException:
+                    sys.stderr.flush()
+                    os.dup2(saved_fd, 2)
+                    tmpf.seek(0, 2)
+                    tmpf.seek(max(0, tmpf.tell() - 4000))
+                    sys.stderr.write(tmpf.read().decode("utf-8", "replace"))
+                    raise
                 finally:
+                    sys.stderr.flush()
+                    os.dup2(saved_fd, 2)
+                    os.close(saved_fd)
+                    tmpf.close()
                     ctx.close()
                     world.DEFAULT_PROCFS, ctx.alt = "/proc", False
+                    harness.ALT_SETTINGS["debug"] = False
                 for v in res2.get("violations", []):
                     v["case"] = {"_mount": ALT, "case": v.get("case")}
                     if isinstance(v.get("alt_case"), dict):
@@ -56,7 +78,7 @@ def main():
                     v["msg"] = "[procfs mounted at %s] %s" % (ALT, v.get("msg"))
                 res["violations"] = res.get("violations", []) + res2.get("violations", [])
                 c2 = res2.get("coverage", {})
-                res["coverage"]["alt_procfs_mount"] = {"mount": ALT, "violations": len(res2.get("violations", [])),
+                res["coverage"]["alt_procfs_mount"] = {"mount": ALT, "PSUTIL_DEBUG": True, "violations": len(res2.get("violations", [])),
                                                        **{k: c2[k] for k in ("evaluations", "distinct_nontrivial", "states", "transitions") if k in c2}}
     finally:
         ctx.close()
